@@ -122,3 +122,38 @@ Definition permit (b : bitmap) (cls : N) : bool := forallb (IsSet b) (governing 
 
 (* the display-name privilege: never an error, the supplied name is adopted iff bit 26 is held *)
 Definition adopted_name (b : bitmap) (supplied current : bytes) : bytes := if IsSet b 26 then supplied else current.
+
+(* ---- which directory a file path names, for the upload-folder / drop-box rules -------------------------
+   The protocol's special folders are recognised by name: a folder whose name contains "upload" accepts
+   uploads from accounts without upload-anywhere, a folder whose name contains "drop box" does too and may
+   only be listed with view-drop-boxes.  The directory a path field names is the one its items RESOLVE to
+   (Lib/Path.v: sub_of - "." and ".." items and separators inside an item are resolved exactly as ReadPath
+   resolves them); the rule is judged on the last component of that directory.
+   Lower-casing is ASCII-only here; Go's strings.ToLower maps only U+212A and U+0130 from outside ASCII to
+   ASCII letters (k, i), and neither word contains those. *)
+From Verif Require Import Lib.Path.
+Local Open Scope N_scope.
+Definition lower (c : N) : N := if (65 <=? c) && (c <=? 90) then c + 32 else c.
+Fixpoint starts (p s : bytes) : bool :=
+  match p, s with
+  | [], _ => true
+  | x :: p', y :: s' => (x =? y) && starts p' s'
+  | _ :: _, [] => false
+  end.
+Fixpoint contains (p s : bytes) : bool :=
+  starts p s || match s with [] => false | _ :: r => contains p r end.
+Definition W_UPLOAD : bytes := [117;112;108;111;97;100].
+Definition W_DROPBOX : bytes := [100;114;111;112;32;98;111;120].
+Definition base_of (comps : list name) : bytes := match rev comps with [] => [SLASH] | c :: _ => c end.
+(* specification: the kind of the directory the items resolve to *)
+Definition dir_is (word : bytes) (items : list bytes) : bool := contains word (map lower (base_of (sub_of items))).
+(* FilePath.IsUploadDir / IsDropbox as repaired (hotline/file_path.go): false for "no path" (declared count 0),
+   otherwise the word is looked for in filepath.Base of the joined items *)
+Definition impl_dir_is (word : bytes) (declared : N) (items : list bytes) : bool :=
+  if declared =? 0 then false else contains word (map lower (base_of (sub_of items))).
+
+(* decisions of the three handlers that apply the rules; [b] is the requester's bitmap *)
+Definition may_list (b : bitmap) (declared : N) (items : list bytes) : bool :=
+  negb (impl_dir_is W_DROPBOX declared items) || IsSet b 30.
+Definition may_upload_to (b : bitmap) (declared : N) (items : list bytes) : bool :=
+  IsSet b 25 || impl_dir_is W_UPLOAD declared items || impl_dir_is W_DROPBOX declared items.
